@@ -245,7 +245,9 @@ def mean(group_idx, array, *, axis=-1, size=None, fill_value=None, dtype=None):
         fill_value = 0
     out = sum(group_idx, array, axis=axis, size=size, dtype=dtype, fill_value=fill_value)
     with np.errstate(invalid="ignore", divide="ignore"):
-        out /= nanlen(group_idx, array, size=size, axis=axis, fill_value=0)
+        # like np.mean(..., dtype=<integer>): divide exactly, then cast to the requested dtype
+        counts = nanlen(group_idx, array, size=size, axis=axis, fill_value=0)
+        np.divide(out, counts, out=out, casting="unsafe")
     return out
 
 
@@ -254,7 +256,9 @@ def nanmean(group_idx, array, *, axis=-1, size=None, fill_value=None, dtype=None
         fill_value = 0
     out = nansum(group_idx, array, size=size, axis=axis, dtype=dtype, fill_value=fill_value)
     with np.errstate(invalid="ignore", divide="ignore"):
-        out /= nanlen(group_idx, array, size=size, axis=axis, fill_value=0)
+        # like np.mean(..., dtype=<integer>): divide exactly, then cast to the requested dtype
+        counts = nanlen(group_idx, array, size=size, axis=axis, fill_value=0)
+        np.divide(out, counts, out=out, casting="unsafe")
     return out
 
 
